@@ -234,6 +234,19 @@ pub fn run() {{
         mods.append((key, mod))
         ext_keys.append(key)
         meta[key] = ({"vs": [{"disc": {"op": "lit"}}], "discs": [], "extremes": t, "_module": mod}, "")
+        # the same layout with the discriminants written as LITERALS (decimal, hex with separators, suffixed): values beyond
+        # isize / i64 / u64 are ordinary discriminants of the wider and of the unsigned reprs
+        bits = BITS[t]
+        lo, hi = (-(1 << (bits - 1)), (1 << (bits - 1)) - 1) if signed else (0, (1 << bits) - 1)
+        hexs = "0x" + "_".join(f"{hi - 1:X}"[max(0, i - 4):i] for i in range(len(f"{hi - 1:X}"), 0, -4)[::-1])
+        for spelling, (a_lit, c_lit) in {"dec": (str(lo), str(hi - 1)), "hex": (str(lo), hexs), "suffixed": (f"{lo}{t}", f"{hi - 1}{t}")}.items():
+            key2 = f"extremes:{t}:{spelling}"
+            if replay and json.load(open(replay))["key"] != key2:
+                continue
+            mod2 = mod.replace(f"A = <{t}>::MIN, B, C = <{t}>::MAX - 1, D", f"A = {a_lit}, B, C = {c_lit}, D").replace(json.dumps(key), json.dumps(key2))
+            mods.append((key2, mod2))
+            ext_keys.append(key2)
+            meta[key2] = ({"vs": [{"disc": {"op": "lit"}}], "discs": [], "extremes": t, "_module": mod2}, "")
     if not replay:
         # rustc cannot take an unbounded number of probe modules: the <= 2-variant enums, then a seeded share
         keep = vlib.cap_cases([k for k, _ in mods], seed, 12000 if tier == "quick" else 30000,
